@@ -70,4 +70,11 @@ if __name__ == "__main__":
     for d in dirs:
         d = os.path.abspath(d)
         res = confirm(d) if mode == "confirm" else detect(d)
-        print(os.path.basename(d), json.dumps(res))
+        if mode == "redetect":
+            mp = os.path.join(d, "meta.json")
+            meta = json.load(open(mp))
+            meta["detected_by"] = res.get("fired", {})
+            json.dump(meta, open(mp, "w"), indent=1)
+            print(os.path.basename(d), meta.get("breaks_property"), "->", res.get("fired"))
+        else:
+            print(os.path.basename(d), json.dumps(res))
